@@ -60,8 +60,16 @@ fn render(v: &SourcedValue) -> Result<String> {
         },
 
         Value::List(items) => {
+            // The list stays locked while its items are rendered, so a failed
+            // lock means that the list (indirectly) contains itself.
+            let Ok(items) = items.try_lock() else {
+                return Err(Error::BuiltinFuncErr{msg:
+                    "can't print a value that contains itself".to_string(),
+                });
+            };
+
             s += "[\n";
-            for item in &lock_deref!(items) {
+            for item in &*items {
                 let rendered_item = render(item)?;
                 let indented = rendered_item.replace('\n', "\n    ");
                 s += &format!("    {indented},\n");
@@ -70,8 +78,14 @@ fn render(v: &SourcedValue) -> Result<String> {
         },
 
         Value::Object(props) => {
+            let Ok(props) = props.try_lock() else {
+                return Err(Error::BuiltinFuncErr{msg:
+                    "can't print a value that contains itself".to_string(),
+                });
+            };
+
             s += "{\n";
-            for (name, prop) in &lock_deref!(props) {
+            for (name, prop) in &*props {
                 let rendered_prop = render(prop)?;
                 let indented = rendered_prop.replace('\n', "\n    ");
                 s += &format!("    \"{name}\": {indented},\n");
